@@ -42,11 +42,14 @@ def gen_ops(rng, version):
     extra = []
     if version == 'gfa2':
         extra += [('add', 'U\tgrp\tA B\txx:i:1'), ('add', 'U\tgrp\tB\txx:i:2'), ('add', 'O\tgrp\tA+')]
-    extra += [('add', 'H\tTS:i:5\tab:i:1'), ('add', 'H\tzz:i:1\tTS:i:6'), ('add', 'H\tab:Z:x'),
+    ts = rng.choice(['5', '0', '0', '-1'])          # a stored value that is falsy must be checked like any other
+    extra += [('add', 'H\tTS:i:%s\tab:i:1' % ts), ('add', 'H\tzz:i:1\tTS:i:6'), ('add', 'H\tab:Z:x'),
               ('add', 'H\tVN:Z:9.9'), ('add', 'H\tVN:Z:%s' % ('2.0' if version == 'gfa1' else '1.0'))]
     k = rng.randint(0, len(extra))
-    for e in extra[:k]:
-        ops.insert(rng.randint(0, len(ops)), e)
+    # the header lines keep their relative order: the conflicting line comes after the one it conflicts with
+    at = sorted(rng.randint(0, len(ops)) for _ in range(k))
+    for j, e in reversed(list(enumerate(extra[:k]))):
+        ops.insert(at[j], e)
     return ops
 
 
